@@ -296,29 +296,78 @@ def run(ctx):
 
     # ---------------- R03.6 parent search by id
     r6 = ctx.rule('R03.6', 'runtime parent search compares template ids with the compile-time parent id in both loops')
+    def id_comparisons(b):
+        """[(other-side descriptor)] of every Eq between a RuntimeScopeTemplate.id read and something else in body b"""
+        out = []
+        for i, j, s in b.stmts():
+            if s['k'] == 'assign' and s['rv']['k'] == 'bin' and s['rv']['op'] == 'Eq':
+                sides = []
+                for o in (s['rv']['a'], s['rv']['b']):
+                    k, v = mirq.chase_op(b, o)
+                    desc = None
+                    if k == 'rv' and v[2]['rv']['k'] == 'use':
+                        pl = op_place(v[2]['rv']['op'])
+                        names = [e.get('n') or e.get('dc') for e in (pl['p'] if pl else []) if isinstance(e, dict) and ('n' in e or 'dc' in e)]
+                        if any(isinstance(e, dict) and e.get('n') == 'id' and e.get('adt') == 'runtime_scope::RuntimeScopeTemplate' for e in (pl['p'] if pl else [])):
+                            names.append('template')
+                        if pl is not None and 1 <= pl['l'] <= b.d['argc']:
+                            names.append('arg:%d' % pl['l'])
+                        else:
+                            # payload of a parameter bound by `let x = param?` / `if let Some(x) = param`
+                            k0, v0 = mirq.chase(b, pl['l']) if pl is not None else (None, None)
+                            if k0 == 'arg':
+                                names.append('arg:%d' % v0)
+                            elif k0 == 'call' and strip_generics(v0[1].get('callee') or v0[1].get('decl') or '').endswith('::branch'):
+                                k1, v1 = mirq.chase_op(b, v0[1]['args'][0])
+                                if k1 == 'arg':
+                                    names.append('arg:%d' % v1)
+                        desc = names
+                    elif k == 'arg':
+                        desc = ['arg:%d' % v]
+                    sides.append(desc)
+                flat = [x for sd in sides if sd for x in sd]
+                if 'id' in flat and 'template' in flat:
+                    out.append(flat)
+        return out
+    walkers = {}
+    for wb in mir.bodies:
+        if wb.file != 'src/runtime_scope.rs':
+            continue
+        cs = id_comparisons(wb)
+        if cs:
+            walkers[wb.nid] = cs
     for nid, idsrc in (('runtime_scope::RuntimeScopeTemplate::from_specs', 'arg'), ('runtime_scope::RuntimeScope::from_template', 'scope_parent_id')):
         bs = mir.find(nid)
         ok = False
         if len(bs) == 1:
             b = bs[0]
-            for i, j, s in b.stmts():
-                if s['k'] == 'assign' and s['rv']['k'] == 'bin' and s['rv']['op'] == 'Eq':
-                    sides = []
-                    for o in (s['rv']['a'], s['rv']['b']):
-                        k, v = mirq.chase_op(b, o)
-                        desc = None
-                        if k == 'rv' and v[2]['rv']['k'] == 'use':
-                            pl = op_place(v[2]['rv']['op'])
-                            names = [e.get('n') or e.get('dc') for e in (pl['p'] if pl else []) if isinstance(e, dict) and ('n' in e or 'dc' in e)]
-                            if any(isinstance(e, dict) and e.get('n') == 'id' and e.get('adt') == 'runtime_scope::RuntimeScopeTemplate' for e in (pl['p'] if pl else [])):
-                                names.append('template')
-                            desc = names
-                        elif k == 'arg':
-                            desc = ['arg']
-                        sides.append(desc)
-                    flat = [x for sd in sides if sd for x in sd]
-                    if 'id' in flat and ('template' in flat) and (idsrc in flat or (idsrc == 'arg' and any(sd and (sd == ['arg'] or 'Some' in sd) for sd in sides))):
-                        ok = True
+            for flat in walkers.get(nid, []):
+                if idsrc in flat or (idsrc == 'arg' and any(x.startswith('arg:') or x == 'Some' for x in flat)):
+                    ok = True
+            if not ok:
+                # the walk extracted into a helper: a call of a body that compares template.id with one of its parameters,
+                # handed the recorded parent id (this function's own parameter / the template's scope_parent_id)
+                for bb, tm in b.calls():
+                    cn = strip_generics(tm.get('callee') or '')
+                    for flat in walkers.get(cn, []):
+                        for x in flat:
+                            if not x.startswith('arg:'):
+                                continue
+                            n_arg = int(x.split(':')[1])
+                            if n_arg - 1 >= len(tm['args']):
+                                continue
+                            k, v = mirq.chase_op(b, tm['args'][n_arg - 1])
+                            if idsrc == 'arg' and k == 'arg':
+                                ok = True
+                            if k == 'rv' and v[2]['rv']['k'] == 'use':
+                                pl = op_place(v[2]['rv']['op'])
+                                if pl is not None and idsrc in [e.get('n') for e in pl['p'] if isinstance(e, dict)]:
+                                    ok = True
+                            if k == 'place' and idsrc in [e.get('n') for e in v['p'] if isinstance(e, dict)]:
+                                ok = True
+                            pl0 = op_place(tm['args'][n_arg - 1])
+                            if pl0 is not None and idsrc in [e.get('n') for e in pl0['p'] if isinstance(e, dict)]:
+                                ok = True
         r6.inst({'body': nid, 'compares template.id with': idsrc}, ok=ok, kind=nid)
         if not ok:
             r6.fail('%s/id-compare' % nid, 'src/runtime_scope.rs', 'the ancestor walk does not compare template.id with the recorded parent id')
